@@ -301,10 +301,12 @@ def _check_simplex_enumeration(prog, ctx, cs):
         d2, b2 = poly_of_term(tm.term(x.args[0])), poly_of_term(tm.term(x.args[1]))
         # the first entry: the single-element list concatenated in front
         firsts = []
-        for b in tm.env.bindings.get("levelvector", []):
-            if b.kind == "assign" and isinstance(b.value, ast.List) and len(b.value.elts) == 1:
-                firsts.append(poly_of_term(tm.term(b.value.elts[0])))
         loops = [l for l in R.enclosing_loops(x) if isinstance(l, ast.For) and isinstance(l.target, ast.Name)]
+        for bs in tm.env.bindings.values():
+            for b in bs:
+                if b.kind == "assign" and isinstance(b.value, ast.List) and len(b.value.elts) == 1 and loops \
+                        and any(b.stmt is y for y in ast.walk(loops[-1])):
+                    firsts.append(poly_of_term(tm.term(b.value.elts[0])))
         if not firsts or not loops:
             continue
         f = firsts[0]
@@ -357,8 +359,8 @@ def _check_simplex_enumeration(prog, ctx, cs):
     gcs = cs.methods["getCombiScheme"]
     tmc = Terms(gcs.node, max_depth=0)
     okc = False
-    for b in tmc.env.bindings.get("coefficient", []):
-        if b.kind != "assign":
+    for b in [b for bs in tmc.env.bindings.values() for b in bs]:
+        if b.kind != "assign" or not any(isinstance(y, ast.Attribute) and y.attr == "factorial" for y in ast.walk(b.value)):
             continue
         t = tmc.term(b.value)
         loops = [l for l in R.enclosing_loops(b.stmt) if isinstance(l, ast.For) and isinstance(l.target, ast.Name)]
@@ -505,12 +507,15 @@ def _check_admissibility(prog, ctx, fi, ad):
 def _check_stencil(prog, ctx, gc):
     tm = Terms(gc.node, max_depth=0)
     c = cfg_of(gc)
-    # D4: the value stored into the coefficient dictionary
+    # D4: the value stored into the coefficient dictionary (role: a local created as an empty dict in this function)
+    fresh_dicts = {st.targets[0].id for st in walk_local(gc.node) if isinstance(st, ast.Assign) and len(st.targets) == 1
+                   and isinstance(st.targets[0], ast.Name) and ((isinstance(st.value, ast.Dict) and not st.value.keys)
+                   or (isinstance(st.value, ast.Call) and isinstance(st.value.func, ast.Name) and st.value.func.id == "dict" and not st.value.args))}
     stores = []
     for st in walk_local(gc.node):
         if isinstance(st, (ast.Assign, ast.AugAssign)):
             tg = st.targets[0] if isinstance(st, ast.Assign) else st.target
-            if isinstance(tg, ast.Subscript) and isinstance(tg.value, ast.Name) and tg.value.id == "grid_dict":
+            if isinstance(tg, ast.Subscript) and isinstance(tg.value, ast.Name) and tg.value.id in fresh_dicts:
                 stores.append(st)
     ctx.floor("C01.D4", len(stores), 1, "stores into the coefficient dictionary")
     for k, st in enumerate(stores):
@@ -568,7 +573,10 @@ def _check_stencil(prog, ctx, gc):
               "the coefficient is not stored at grid_levelvec + stencil element")
 
     # D5: truncated stencil
-    appends = [x for x in R.calls_in(gc.node, method="append") if isinstance(x.func.value, ast.Name) and x.func.value.id == "stencils"]
+    # role of the stencil list: the local list that literal lists of constants are appended to
+    appends = [x for x in R.calls_in(gc.node, method="append") if isinstance(x.func.value, ast.Name) and x.args
+               and isinstance(x.args[0], (ast.List, ast.Tuple)) and x.args[0].elts
+               and all(isinstance(e, ast.Constant) or (isinstance(e, ast.UnaryOp) and isinstance(e.operand, ast.Constant)) for e in x.args[0].elts)]
     ctx.floor("C01.D5", len(appends), 2, "stencil appends")
     lm = ("a", ("n", gc.self_name), "lmin")
     okcount = 0
@@ -608,7 +616,8 @@ def _check_stencil(prog, ctx, gc):
                   "stencil %s is appended under %s (required: %s, in a loop over range(self.dim))"
                   % (sorted(vals) if vals is not None else src(lst), why, need))
     cp = [x for x in R.calls_in(gc.node, func="get_cross_product")]
-    ok = any(x.args and isinstance(x.args[0], ast.Name) and x.args[0].id == "stencils" for x in cp)
+    stencil_lists = {x.func.value.id for x in appends}
+    ok = any(x.args and isinstance(x.args[0], ast.Name) and x.args[0].id in stencil_lists for x in cp)
     ctx.check(ok, "C01.D5", R.key_of(gc, "cross-product"), gc.loc(), "stencil elements are the cross product of the per-dimension stencils",
               "the stencil elements are no longer get_cross_product(stencils)")
     # all of index_set is visited
@@ -628,7 +637,8 @@ def _check_stencil(prog, ctx, gc):
         if loops and isinstance(loops[-1], ast.For) and isinstance(loops[-1].target, ast.Tuple) and len(loops[-1].target.elts) == 2:
             a, b = loops[-1].target.elts
             it = tm.term(loops[-1].iter)
-            ok = it == ("call", ("a", ("n", "grid_dict"), "items"), (), ()) and isinstance(lv, ast.Name) and isinstance(co, ast.Name) \
+            coeff_dicts = {(st.targets[0] if isinstance(st, ast.Assign) else st.target).value.id for st in stores}
+            ok = any(it == ("call", ("a", ("n", nm), "items"), (), ()) for nm in coeff_dicts) and isinstance(lv, ast.Name) and isinstance(co, ast.Name) \
                 and isinstance(a, ast.Name) and isinstance(b, ast.Name) and lv.id == a.id and co.id == b.id
             guards = [g for (g, gn) in R.dominating_guards(gc, R.cfg_node(gc, x), tm) if gn.kind == "test"]
             ok = ok and guards == [("cmp", "NotEq", ("c", "0"), ("n", b.id))] or ok and guards == [("cmp", "NotEq", ("n", b.id), ("c", "0"))]
